@@ -513,18 +513,27 @@ fn gen_doc(rng: &mut Rng, id: String, vocab: usize) -> Value {
   match rng.below(6) {
     0 => {}
     1 => d["tag"] = json!([*rng.pick(&TAGS), *rng.pick(&TAGS)]),
-    _ => d["tag"] = json!(*rng.pick(&TAGS[..(2 + rng.below(TAGS.len() - 1))])),
+    _ => {
+      let k = 2 + rng.below(TAGS.len() - 1);
+      d["tag"] = json!(*rng.pick(&TAGS[..k]))
+    }
   }
   match rng.below(6) {
     0 => {}
     1 => d["n"] = json!([*rng.pick(&I64S), *rng.pick(&I64S[..6])]),
-    _ => d["n"] = json!(*rng.pick(&I64S[..(2 + rng.below(I64S.len() - 1))])),
+    _ => {
+      let k = 2 + rng.below(I64S.len() - 1);
+      d["n"] = json!(*rng.pick(&I64S[..k]))
+    }
   }
   match rng.below(7) {
     0 => {}
     1 => d["x"] = json!([*rng.pick(&F64S), *rng.pick(&F64S)]),
     2 => d["x"] = json!((rng.f64() - 0.3) * 1000.0),
-    _ => d["x"] = json!(*rng.pick(&F64S[..(2 + rng.below(F64S.len() - 1))])),
+    _ => {
+      let k = 2 + rng.below(F64S.len() - 1);
+      d["x"] = json!(*rng.pick(&F64S[..k]))
+    }
   }
   d
 }
